@@ -19,7 +19,7 @@ T={
  "C05":("crash oracle over generated 4-tuples (valid ASTs, token-level mutants, random metacharacter strings, extreme bounds, precondition shapes) in worker processes with overflow checks on; libFuzzer campaign in the thorough tier","4 C05",
         "every API call and iterator step must end in Ok or one of the four classified errors; panics, overflow, aborts and Error::Internal are violations",
         "built with debug-assertions/overflow-checks; hangs are left to C06"),
- "C06":("bounded termination observation under a CPU-time watchdog with single-character-deletion growth test; bounded-exhaustive nested-quantifier scope + seeded random quantifier-heavy patterns (+ libFuzzer in thorough)","4 C06",
+ "C06":("bounded termination observation under a CPU-time watchdog with single-character-deletion growth test; bounded-exhaustive nested-quantifier scope + seeded random quantifier-heavy patterns, anchored ones after a compilation of the same text under the other dialect (+ libFuzzer in thorough)","4 C06",
         "calls must return and iterators must respect len+1 / 2*len+1 and stay exhausted; a call is judged non-terminating only if it exceeds 0.5 s then 10 s of CPU and every single-character deletion of the minimal such input returns in < 2 ms",
         "liveness is only observed within bounds (inputs <= 8, nesting <= 3); finite exponential backtracking is deliberately not reported"),
  "C08":("differential: same engine with all compile-time shortcuts disabled through the verification hook; two bounded-exhaustive scopes + generators biased to each shortcut (+ libFuzzer target with the differential as in-target oracle in thorough)","4 C08",
@@ -64,7 +64,7 @@ T.update({
  "C17":("differential between the two dialect constructors on one pattern text, tags of XPath-only constructs from the AST; R1 with anchors as literals for xsd; bounded-exhaustive small scope + seeded random ASTs with shrinking","4 C17",
         "xsd rejects exactly the XPath-only constructs, agrees with xpath on the common subset, and treats ^ and $ as literals",
         "trusts R1 for the anchors-as-literals clause"),
- "C18":("model-based call histories (fresh object per call as the model) executed in order with interleaved iterators, shuffled, and from 4 threads; compile-time Send+Sync assertion crate","4 C18",
+ "C18":("model-based call histories (fresh object per call as the model) executed in order with interleaved iterators, shuffled, and from 4 threads, a quarter on an object already used 70 or 140 times; compile-time Send+Sync assertion crate","4 C18",
         "every call result in every execution must equal the result on a freshly compiled Regex",
         "threads are a stress, not schedule enumeration"),
 })
